@@ -482,6 +482,8 @@ def o_c18(run):
                     mutating = True
             if r.op in ('create', 'reopen'): mutating = True
             if r.op == 'av' and r.i_out[0] == 'nsc': pass
+        if g.meta.get('op') == 'set_snapshot':
+            mutating = True      # the harness wrote a snapshot record through the storage API (urgency scenario)
         if mutating or not g.ops:
             continue
         for c, ds in g.dumps.items():
@@ -931,6 +933,16 @@ def o_c15_bin(run):
                 out.append(fail('C15: no request makes the server fail with a 5xx or crash; each gets a 4xx response', r, f'status {st} for client id {m.get("cid")} on route {m.get("route")} (real executable)'))
         if m.get('op') == 'alive' and st != 200:
             out.append(fail('C15: no request makes the server crash, and none changes any stored state', r, f'after the malformed requests the stored version is answered {r.impl}'))
+    return out
+
+def o_overlap_done(run):
+    """scenario `overlap`: the concurrently issued requests all completed"""
+    out = []
+    if not str(run.setup).startswith('overlap'):
+        return out
+    for r in run.recs:
+        if r.ws[0] == 'xcmp' and len(r.ws) > 1 and r.ws[1] == 'deadlock':
+            out.append(fail('C03: each request completes with a response', r, 'uploads of DIFFERENT clients issued concurrently on one service, their bodies arriving chunk by chunk: ' + str(r.impl)))
     return out
 
 def o_c13_max(run):
